@@ -614,6 +614,147 @@ def k4_wrappers(s: str, e: str, k: int, m: int) -> bool:
     return ob.post(ok)
 
 
+# ---------------------------------------------------------------------------------- long concrete texts
+# Length thresholds that are CONSTANTS of the code (the 2**16 BUFFER_SIZE of contents_of_existing_path, the
+# default memory buffer io.DEFAULT_BUFFER_SIZE = 8192, the 100 + 1 extra characters `equals` reads of a
+# file-backed operand) are out of reach of short symbolic texts.  Here only SELECTORS into catalogues are
+# symbolic; once they are concrete the REAL classes run natively (tracing suspended) on REAL temporary files
+# with the REAL io / os / filecmp -- no stand-in is involved.
+
+REAL_LONG = REAL_K3
+
+
+def long_text(length: int, shape: int) -> str:
+    """A text of exactly `length` characters whose content depends on the position.
+    shape 0: many short lines, ends with new-line; 1: many short lines, no final new-line;
+          2: one long line ending with new-line; 3: one long line without new-line."""
+    if length <= 0:
+        return ''
+    if shape in (0, 1):
+        n = length // 10 + 2
+        body = ''.join('%09d\n' % i for i in range(n))[:length]
+        if shape == 0:
+            return body[:-1] + '\n'
+        return body[:-1] + ('x' if body[-1] == '\n' else body[-1])
+    body = ''.join('%09d.' % i for i in range(length // 10 + 2))[:length]
+    if shape == 2:
+        return body[:-1] + '\n'
+    return body
+
+
+K2L_CONFIGS = [  # (source, memory buffer size)
+    (('file',), 8192),
+    (('file', 'identity'), 8192),
+    (('str', 'filter'), 8192),
+    (('file', 'writer'), 8192),
+    (('str', 'fdwriter'), 8192),
+    (('file', 'filter'), 2 ** 20),
+    ((('concat', 'str', 'file'),), 8192),
+]
+K2L_LENGTHS = [8191, 8192, 8193, 2 ** 16 - 1, 2 ** 16, 2 ** 16 + 1, 70000]
+K2L_SEQS = ['ALWFLAWZLAWF', 'ZALWFLAW']  # = SEQ_UNFROZEN_THEN_FROZEN, SEQ_FROZEN_FIRST
+
+
+def _pre_k2_long(cfg: int, li: int, shape: int) -> bool:
+    return 0 <= cfg < len(K2L_CONFIGS) and 0 <= li < len(K2L_LENGTHS) and 0 <= shape < 4
+
+
+def k2_long(cfg: int, li: int, shape: int) -> bool:
+    """
+    pre: _pre_k2_long(cfg, li, shape)
+    post: _
+    """
+    spec, m = ob.pick(K2L_CONFIGS, cfg)
+    length = ob.pick(K2L_LENGTHS, li)
+    shape = ob.concrete_int(shape, 0, 3)
+    bug = bool(ob.case().get('oracle_bug'))
+    with _C14_chfix.no_tracing():
+        ok = _k2_long_concrete(spec, m, length, shape, bug)
+    return ob.post(ok)
+
+
+def _k2_long_concrete(spec, m: int, length: int, shape: int, bug: bool) -> bool:
+    from vsym import scratch
+    text = long_text(length, shape)
+    n = n_parts(spec)
+    cut = (length * 2) // 3
+    parts = (text, '', '') if n == 1 else (text[:cut], text[cut:], '')
+    want_text = text[:2 ** 16] if bug else text  # seeded oracle error: "a text is at most 2**16 characters"
+    want = (want_text, ref_lines(want_text))
+    for seq in K2L_SEQS:
+        d = scratch.new_dir('c14long')
+        try:
+            got = _scenario(spec, seq, parts, m, d)
+        finally:
+            scratch.remove(d)
+        if len(got) != len(seq):
+            return False
+        for acc, delivered in zip(seq, got):
+            if acc == A_FREEZE:
+                continue
+            whole, lines = delivered
+            if whole is not None and whole != want[0]:
+                return False
+            if lines is not None and lines != want[1]:
+                return False
+    return True
+
+
+K3L_KINDS_E = [('str',), ('file',), ('str', 'writer'), ('file', 'filter')]
+K3L_KINDS_A = [(('str',), ''), (('file',), ''), (('str', 'writer'), ''), (('str', 'writer'), 'Z'),
+               (('file', 'filter'), 'ZL')]
+K3L_LENGTHS = [99, 100, 101, 102, 150]
+K3L_MS = [1, 8192]
+
+
+def k3l_variants(base: str) -> List[str]:
+    """the other operand: the text itself / extended by a line / by an empty line / proper prefixes"""
+    out = [base, base + 'x\n', base + '\n', base[:-1]]
+    i = base.rfind('\n', 0, len(base) - 1)
+    if i > 0:
+        out.append(base[:i + 1])  # cut at a line boundary
+    return out
+
+
+def _pre_k3_long(ek: int, ak: int, li: int, mi: int) -> bool:
+    return 0 <= ek < len(K3L_KINDS_E) and 0 <= ak < len(K3L_KINDS_A) and 0 <= li < len(K3L_LENGTHS) \
+        and 0 <= mi < len(K3L_MS)
+
+
+def k3_long(ek: int, ak: int, li: int, mi: int) -> bool:
+    """
+    pre: _pre_k3_long(ek, ak, li, mi)
+    post: _
+    """
+    espec = ob.pick(K3L_KINDS_E, ek)
+    aspec, apre = ob.pick(K3L_KINDS_A, ak)
+    length = ob.pick(K3L_LENGTHS, li)
+    m = ob.pick(K3L_MS, mi)
+    bug = bool(ob.case().get('oracle_bug'))
+    with _C14_chfix.no_tracing():
+        ok = _k3_long_concrete(espec, aspec, apre, length, m, bug)
+    return ob.post(ok)
+
+
+def _k3_long_concrete(espec, aspec, apre: str, length: int, m: int, bug: bool) -> bool:
+    from vsym import scratch
+    for shape in (0, 1):  # ends with / without new-line
+        base = long_text(length, shape)
+        for other in k3l_variants(base):
+            for e, a in ((base, other), (other, base)):
+                want = e == a
+                if bug and (a.startswith(e) and e.endswith('\n')):
+                    want = True  # seeded oracle error: "a text extended by whole lines is equal"
+                d = scratch.new_dir('c14long')
+                try:
+                    got = _equals_scenario(espec, aspec, apre, e, a, m, d)
+                finally:
+                    scratch.remove(d)
+                if got != [want, want]:
+                    return False
+    return True
+
+
 # ---------------------------------------------------------------------------------- obligations
 
 def _spec_name(spec) -> str:
@@ -783,6 +924,32 @@ def obligations(tier: str) -> List[Ob]:
     obs[-1].name += ':seeded-oracle-error'
     obs[-1].expect = ob.REFUTE
     obs[-1].bound = 'seeded oracle error: texts that differ only in a final new-line count as equal'
+
+    # ---- long concrete texts (selectors only): length thresholds that are constants of the code
+    stub_long = ('none: the selectors are made concrete, then the real classes run natively on REAL temporary files '
+                 '(vsym.scratch) with the real io / os / filecmp',)
+    obs.append(Ob(
+        name='K2:long', fn='k2_long', case=dict(), kernel='K2', selector=True, timeout=600,
+        bound='[selector] every source in %s (buffer size as listed) x every length in %s x {many short lines, one long '
+              'line} x {with, without final new-line}; access sequences %s; all accesses compared with the text' % (
+                  [(_spec_name(sp), mm) for sp, mm in K2L_CONFIGS], K2L_LENGTHS, K2L_SEQS),
+        real=REAL_K2, stubs=stub_long, entry='string source built from the real classes, on real files'))
+    obs.append(Ob(
+        name='K2:long:seeded-oracle-error', fn='k2_long', case=dict(oracle_bug=True), kernel='K2', selector=True,
+        timeout=300, expect=ob.REFUTE, real=REAL_K2, stubs=stub_long,
+        bound='seeded oracle error: "a text is at most 2**16 characters"'))
+    obs.append(Ob(
+        name='K3:long', fn='k3_long', case=dict(), kernel='K3', selector=True, timeout=900,
+        bound='[selector] equals: every expected kind in %s x every actual kind in %s x every length in %s x buffer size in %s; '
+              'per cell: text with / without final new-line against itself, itself + "x\\n", itself + "\\n", itself '
+              'minus its last character, itself cut at a line boundary, in both roles; matcher applied twice' % (
+                  [_spec_name(sp) for sp in K3L_KINDS_E],
+                  [_spec_name(sp) + (':' + pre if pre else '') for sp, pre in K3L_KINDS_A], K3L_LENGTHS, K3L_MS),
+        real=REAL_K3, stubs=stub_long, entry='_EqualityStringMatcher(expected).matches_w_trace(actual), on real files'))
+    obs.append(Ob(
+        name='K3:long:seeded-oracle-error', fn='k3_long', case=dict(oracle_bug=True), kernel='K3', selector=True,
+        timeout=300, expect=ob.REFUTE, real=REAL_K3, stubs=stub_long,
+        bound='seeded oracle error: "a text extended by whole lines is equal"'))
 
     # ---- K4
     w_quick = ('plain', 'and', 'identity')
